@@ -190,6 +190,7 @@ class CK { mixed b; int a; mixed c; }
 void take(string k, mixed v) { if (!slots) slots = ([ ]); slots[k] = v; }
 void co_val(mixed v, string k) { rec("COVAL " + me() + " " + k); }
 void got_val(string line, mixed v, string k) { rec("GOTVAL " + me() + " " + k); }
+void got_val_err(string line, mixed v, string k) { rec("GOTVALERR " + me() + " " + k); error("input_to callback fails\n"); }
 int act_val(string arg) { rec("ACTVAL " + me()); return 1; }
 int cmp_val(mixed x, mixed y) { return 1; }
 string vsum(mixed v) {
@@ -255,6 +256,9 @@ void cop(string *a) {
     break;
   case "itv":     // itv <a>: the value travels as an input_to carry-over argument
     input_to("got_val", 0, slots[a[1]], a[1]);
+    break;
+  case "itve":    // itve <a>: the same, and the callback ends in an error
+    input_to("got_val_err", 0, slots[a[1]], a[1]);
     break;
   case "drop":
     map_delete(slots, a[1]);
@@ -805,7 +809,7 @@ void do_op(string op) {
   case "wclone": case "wload": case "whold": case "wdump": case "walk": case "lname": case "wmove": case "wmoves": case "wdest": case "wvo":
     wop(a);
     break;
-  case "mk": case "put": case "cyc": case "uncyc": case "share": case "cov": case "covf": case "itv": case "drop": case "clearall": case "rb": case "many": case "use": case "memstat": case "rcall": case "dslot": case "dkids": case "pinfo": case "pdump":
+  case "mk": case "put": case "cyc": case "uncyc": case "share": case "cov": case "covf": case "itv": case "itve": case "drop": case "clearall": case "rb": case "many": case "use": case "memstat": case "rcall": case "dslot": case "dkids": case "pinfo": case "pdump":
     cop(a);
     break;
   case "xco": case "xaco": case "xsco": case "xsaco": case "xreload": case "comp": case "coinfo": case "reload":
